@@ -24,6 +24,7 @@ def cfg : Cfg :=
     procfsClauses := mkClauses Gen.C20.procfsClauses
     win := winCfg
     broadcastAssigned := Gen.C20.winBroadcastAssigned
+    broadcastFresh := Gen.C20.winBroadcastFresh
     sunosPid0Named := Gen.C20.sunosPid0AdNamed
     winMapsLoopGuarded := Gen.C20.winMapsLoopGuarded
     winIdentFastOnly := Gen.C20.winIdentFastOnly }
